@@ -48,4 +48,8 @@ PROPS = {
         {"id": "C04", "quick_n": 2500, "thorough_n": 300000, "quick_s": 60, "thorough_s": 900,
          "rule": "table pairs from edit scripts (cell edits, deletes at front/back/block edges/nested ranges, adds, identical, empty side, keyless, composite keys, 0-4 blocks), one or two stores; event multiset vs map-by-key model + offsets + self-diff + swap symmetry; non-trivial = >=2 event kinds or >=2 blocks on a side; distinct by plan hash"},
     ]},
+    "C08": {"level": "exploration", "profiles": [
+        {"id": "C08", "quick_n": 3000, "thorough_n": 400000, "quick_s": 60, "thorough_s": 900, "timeout": 120,
+         "rule": "server DAG (<=48 commits) x ref tips x wants x multi-round have batches x depth x shallow commits; real finder per round vs graph model (closure, order, reachability, tables, refusal, step budget); non-trivial = >=2 rounds or (>=1 ack and >=1 merge commit listed); distinct by plan hash"},
+    ]},
 }
